@@ -553,7 +553,7 @@ fn exh(out: &mut Out, rng: &mut Rng, thorough: bool) {
 	let mut stats = Stats::new();
 	let mut ntuples = 0u64;
 	// edge_bits 4: every ascending 8-tuple of the 16 edges, whole verdict string to the driver
-	let nseeds = if thorough { 40 } else { 6 };
+	let nseeds = if thorough { 40 } else { 14 };
 	for v in VARS.iter() {
 		for si in 0..nseeds {
 			// every other seed is chosen so that its 16-edge graph contains an 8-cycle
@@ -608,7 +608,7 @@ fn exh(out: &mut Out, rng: &mut Rng, thorough: bool) {
 	for v in VARS.iter() {
 		for eb in [5u8, 6u8].iter() {
 			let full = thorough && *eb == 5;
-			let seeds = if full { 1 } else if thorough { 12 } else { 4 };
+			let seeds = if full { 1 } else if thorough { 12 } else { 6 };
 			for _ in 0..seeds {
 				let (seed, cyc) = match seed_with_cycle(*v, *eb, ps, rng, 5000) {
 					Some((s, c)) => (s, Some(c)),
@@ -672,7 +672,7 @@ fn exh(out: &mut Out, rng: &mut Rng, thorough: bool) {
 					});
 					n5 += cnt;
 				} else {
-					let cnt = if thorough { 400_000 } else { 15_000 };
+					let cnt = if thorough { 400_000 } else { 30_000 };
 					for i in 0..cnt {
 						let mut t: Vec<u64> = vec![];
 						while t.len() < ps {
@@ -889,7 +889,7 @@ fn solve(out: &mut Out, rng: &mut Rng, thorough: bool) {
 	set_chain_for(ps);
 	let mut stats = Stats::new();
 	let mut shapes: HashMap<String, u64> = HashMap::new();
-	let graphs = if thorough { 2500 } else { 260 };
+	let graphs = if thorough { 2500 } else { 600 };
 	for v in VARS.iter() {
 		let mut found = 0u64;
 		for g in 0..graphs {
@@ -1168,6 +1168,193 @@ fn pack(out: &mut Out, rng: &mut Rng, thorough: bool) {
 	out.raw(&format!("#STAT pack round-trips ok={} padding-bit corruptions refused={}", ok, refused));
 }
 
+// test vectors of /repo/core/src/pow/*.rs (#[cfg(test)] there, copied): real 42-cycles at edge_bits 19 / 29 / 31
+const ROO_V1_19_KEYS: [u64; 4] = [0x23796193872092ea, 0xf1017d8a68c4b745, 0xd312bd53d2cd307b, 0x840acce5833ddc52,];
+const ROO_V1_19: [u64; 42] = [0x45e9, 0x6a59, 0xf1ad, 0x10ef7, 0x129e8, 0x13e58, 0x17936, 0x19f7f, 0x208df, 0x23704, 0x24564, 0x27e64, 0x2b828, 0x2bb41, 0x2ffc0, 0x304c5, 0x31f2a, 0x347de, 0x39686, 0x3ab6c, 0x429ad, 0x45254, 0x49200, 0x4f8f8, 0x5697f, 0x57ad1, 0x5dd47, 0x607f8, 0x66199, 0x686c7, 0x6d5f3, 0x6da7a, 0x6dbdf, 0x6f6bf, 0x6ffbb, 0x7580e, 0x78594, 0x785ac, 0x78b1d, 0x7b80d, 0x7c11c, 0x7da35,];
+const ROO_V2_19_KEYS: [u64; 4] = [0x6a54f2a35ab7e976, 0x68818717ff5cd30e, 0x9c14260c1bdbaf7, 0xea5b4cd5d0de3cf0,];
+const ROO_V2_19: [u64; 42] = [0x2b1e, 0x67d3, 0xb041, 0xb289, 0xc6c3, 0xd31e, 0xd75c, 0x111d7, 0x145aa, 0x1712e, 0x1a3af, 0x1ecc5, 0x206b1, 0x2a55c, 0x2a9cd, 0x2b67e, 0x321d8, 0x35dde, 0x3721e, 0x37ac0, 0x39edb, 0x3b80b, 0x3fc79, 0x4148b, 0x42a48, 0x44395, 0x4bbc9, 0x4f775, 0x515c5, 0x56f97, 0x5aa10, 0x5bc1b, 0x5c56d, 0x5d552, 0x60a2e, 0x66646, 0x6c3aa, 0x70709, 0x71d13, 0x762a3, 0x79d88, 0x7e3ae,];
+const ROOD_V1_19_KEYS: [u64; 4] = [0x89f81d7da5e674df, 0x7586b93105a5fd13, 0x6fbe212dd4e8c001, 0x8800c93a8431f938,];
+const ROOD_V1_19: [u64; 42] = [0xa00, 0x3ffb, 0xa474, 0xdc27, 0x182e6, 0x242cc, 0x24de4, 0x270a2, 0x28356, 0x2951f, 0x2a6ae, 0x2c889, 0x355c7, 0x3863b, 0x3bd7e, 0x3cdbc, 0x3ff95, 0x430b6, 0x4ba1a, 0x4bd7e, 0x4c59f, 0x4f76d, 0x52064, 0x5378c, 0x540a3, 0x5af6b, 0x5b041, 0x5e9d3, 0x64ec7, 0x6564b, 0x66763, 0x66899, 0x66e80, 0x68e4e, 0x69133, 0x6b20a, 0x6c2d7, 0x6fd3b, 0x79a8a, 0x79e29, 0x7ae52, 0x7defe,];
+const ROOD_V2_29_KEYS: [u64; 4] = [0xe2f917b2d79492ed, 0xf51088eaaa3a07a0, 0xaf4d4288d36a4fa8, 0xc8cdfd30a54e0581,];
+const ROOD_V2_29: [u64; 42] = [0x1a9629, 0x1fb257, 0x5dc22a, 0xf3d0b0, 0x200c474, 0x24bd68f, 0x48ad104, 0x4a17170, 0x4ca9a41, 0x55f983f, 0x6076c91, 0x6256ffc, 0x63b60a1, 0x7fd5b16, 0x985bff8, 0xaae71f3, 0xb71f7b4, 0xb989679, 0xc09b7b8, 0xd7601da, 0xd7ab1b6, 0xef1c727, 0xf1e702b, 0xfd6d961, 0xfdf0007, 0x10248134, 0x114657f6, 0x11f52612, 0x12887251, 0x13596b4b, 0x15e8d831, 0x16b4c9e5, 0x17097420, 0x1718afca, 0x187fc40c, 0x19359788, 0x1b41d3f1, 0x1bea25a7, 0x1d28df0f, 0x1ea6c4a0, 0x1f9bf79f, 0x1fa005c6,];
+const ROOM_V1_19_KEYS: [u64; 4] = [0xdb7896f799c76dab, 0x352e8bf25df7a723, 0xf0aa29cbb1150ea6, 0x3206c2759f41cbd5,];
+const ROOM_V1_19: [u64; 42] = [0x0413c, 0x05121, 0x0546e, 0x1293a, 0x1dd27, 0x1e13e, 0x1e1d2, 0x22870, 0x24642, 0x24833, 0x29190, 0x2a732, 0x2ccf6, 0x302cf, 0x32d9a, 0x33700, 0x33a20, 0x351d9, 0x3554b, 0x35a70, 0x376c1, 0x398c6, 0x3f404, 0x3ff0c, 0x48b26, 0x49a03, 0x4c555, 0x4dcda, 0x4dfcd, 0x4fbb6, 0x50275, 0x584a8, 0x5da0d, 0x5dbf1, 0x6038f, 0x66540, 0x72bbd, 0x77323, 0x77424, 0x77a14, 0x77dc9, 0x7d9dc,];
+const ROOM_V2_29_KEYS: [u64; 4] = [0xe4b4a751f2eac47d, 0x3115d47edfb69267, 0x87de84146d9d609e, 0x7deb20eab6d976a1,];
+const ROOM_V2_29: [u64; 42] = [0x04acd28, 0x29ccf71, 0x2a5572b, 0x2f31c2c, 0x2f60c37, 0x317fe1d, 0x32f6d4c, 0x3f51227, 0x45ee1dc, 0x535eeb8, 0x5e135d5, 0x6184e3d, 0x6b1b8e0, 0x6f857a9, 0x8916a0f, 0x9beb5f8, 0xa3c8dc9, 0xa886d94, 0xaab6a57, 0xd6df8f8, 0xe4d630f, 0xe6ae422, 0xea2d658, 0xf7f369b, 0x10c465d8, 0x1130471e, 0x12049efb, 0x12f43bc5, 0x15b493a6, 0x16899354, 0x1915dfca, 0x195c3dac, 0x19b09ab6, 0x1a1a8ed7, 0x1bba748f, 0x1bdbf777, 0x1c806542, 0x1d201b53, 0x1d9e6af7, 0x1e99885e, 0x1f255834, 0x1f9c383b,];
+const ROOZ_V1_19_KEYS: [u64; 4] = [0xd129f63fba4d9a85, 0x457dcb3666c5e09c, 0x045247a2e2ee75f7, 0x1a0f2e1bcb9d93ff,];
+const ROOZ_V1_19: [u64; 42] = [0x33b6, 0x487b, 0x88b7, 0x10bf6, 0x15144, 0x17cb7, 0x22621, 0x2358e, 0x23775, 0x24fb3, 0x26b8a, 0x2876c, 0x2973e, 0x2f4ba, 0x30a62, 0x3a36b, 0x3ba5d, 0x3be67, 0x3ec56, 0x43141, 0x4b9c5, 0x4fa06, 0x51a5c, 0x523e5, 0x53d08, 0x57d34, 0x5c2de, 0x60bba, 0x62509, 0x64d69, 0x6803f, 0x68af4, 0x6bd52, 0x6f041, 0x6f900, 0x70051, 0x7097d, 0x735e8, 0x742c2, 0x79ae5, 0x7f64d, 0x7fd49,];
+const ROOZ_V2_29_KEYS: [u64; 4] = [0x34bb4c75c929a2f5, 0x21df13263aa81235, 0x37d00939eae4be06, 0x473251cbf6941553,];
+const ROOZ_V2_29: [u64; 42] = [0x49733a, 0x1d49107, 0x253d2ca, 0x5ad5e59, 0x5b671bd, 0x5dcae1c, 0x5f9a589, 0x65e9afc, 0x6a59a45, 0x7d9c6d3, 0x7df96e4, 0x8b26174, 0xa17b430, 0xa1c8c0d, 0xa8a0327, 0xabd7402, 0xacb7c77, 0xb67524f, 0xc1c15a6, 0xc7e2c26, 0xc7f5d8d, 0xcae478a, 0xdea9229, 0xe1ab49e, 0xf57c7db, 0xfb4e8c5, 0xff314aa, 0x110ccc12, 0x143e546f, 0x17007af8, 0x17140ea2, 0x173d7c5d, 0x175cd13f, 0x178b8880, 0x1801edc5, 0x18c8f56b, 0x18c8fe6d, 0x19f1a31a, 0x1bb028d1, 0x1caaa65a, 0x1cf29bc2, 0x1dbde27d,];
+const TOO_V1_29: [u64; 42] = [0x48a9e2, 0x9cf043, 0x155ca30, 0x18f4783, 0x248f86c, 0x2629a64, 0x5bad752, 0x72e3569, 0x93db760, 0x97d3b37, 0x9e05670, 0xa315d5a, 0xa3571a1, 0xa48db46, 0xa7796b6, 0xac43611, 0xb64912f, 0xbb6c71e, 0xbcc8be1, 0xc38a43a, 0xd4faa99, 0xe018a66, 0xe37e49c, 0xfa975fa, 0x11786035, 0x1243b60a, 0x12892da0, 0x141b5453, 0x1483c3a0, 0x1505525e, 0x1607352c, 0x16181fe3, 0x17e3a1da, 0x180b651e, 0x1899d678, 0x1931b0bb, 0x19606448, 0x1b041655, 0x1b2c20ad, 0x1bd7a83c, 0x1c05d5b0, 0x1c0b9caa,];
+const TOO_V1_31: [u64; 42] = [0x1128e07, 0xc181131, 0x110fad36, 0x1135ddee, 0x1669c7d3, 0x1931e6ea, 0x1c0005f3, 0x1dd6ecca, 0x1e29ce7e, 0x209736fc, 0x2692bf1a, 0x27b85aa9, 0x29bb7693, 0x2dc2a047, 0x2e28650a, 0x2f381195, 0x350eb3f9, 0x3beed728, 0x3e861cbc, 0x41448cc1, 0x41f08f6d, 0x42fbc48a, 0x4383ab31, 0x4389c61f, 0x4540a5ce, 0x49a17405, 0x50372ded, 0x512f0db0, 0x588b6288, 0x5a36aa46, 0x5c29e1fe, 0x6118ab16, 0x634705b5, 0x6633d190, 0x6683782f, 0x6728b6e1, 0x67adfb45, 0x68ae2306, 0x6d60f5e1, 0x78af3c4f, 0x7dde51ab, 0x7faced21,];
+
+struct Vector {
+	v: Var,
+	eb: u8,
+	hdr_nonce: u32,
+	keys: Option<[u64; 4]>,
+	sol: [u64; 42],
+}
+fn vectors() -> Vec<Vector> {
+	vec![
+		Vector { v: Var::Cuckaroo, eb: 19, hdr_nonce: 71, keys: Some(ROO_V1_19_KEYS), sol: ROO_V1_19 },
+		Vector { v: Var::Cuckaroo, eb: 19, hdr_nonce: 143, keys: Some(ROO_V2_19_KEYS), sol: ROO_V2_19 },
+		Vector { v: Var::Cuckarood, eb: 19, hdr_nonce: 64, keys: Some(ROOD_V1_19_KEYS), sol: ROOD_V1_19 },
+		Vector { v: Var::Cuckarood, eb: 29, hdr_nonce: 15, keys: Some(ROOD_V2_29_KEYS), sol: ROOD_V2_29 },
+		Vector { v: Var::Cuckaroom, eb: 19, hdr_nonce: 64, keys: Some(ROOM_V1_19_KEYS), sol: ROOM_V1_19 },
+		Vector { v: Var::Cuckaroom, eb: 29, hdr_nonce: 15, keys: Some(ROOM_V2_29_KEYS), sol: ROOM_V2_29 },
+		Vector { v: Var::Cuckarooz, eb: 19, hdr_nonce: 71, keys: Some(ROOZ_V1_19_KEYS), sol: ROOZ_V1_19 },
+		Vector { v: Var::Cuckarooz, eb: 29, hdr_nonce: 15, keys: Some(ROOZ_V2_29_KEYS), sol: ROOZ_V2_29 },
+		Vector { v: Var::Cuckatoo, eb: 29, hdr_nonce: 20, keys: None, sol: TOO_V1_29 },
+		Vector { v: Var::Cuckatoo, eb: 31, hdr_nonce: 99, keys: None, sol: TOO_V1_31 },
+	]
+}
+
+/// (iv) the repo's real-size vectors through the public API, and `create_pow_context` selection
+fn select(out: &mut Out, rng: &mut Rng, _thorough: bool) {
+	global::set_local_chain_type(ChainTypes::Mainnet);
+	let vs = vectors();
+	let mut usable = 0;
+	// "empty header" of the reference miner: all-zero bytes; its length differs between the vectors
+	let mut hdr_len: Vec<usize> = vec![];
+	for x in vs.iter() {
+		let mut found = 80usize;
+		if let Some(kk) = x.keys {
+			found = 0;
+			for len in 4..=400usize {
+				if real_keys(&vec![0u8; len], Some(x.hdr_nonce)) == kk {
+					found = len;
+					break;
+				}
+			}
+		}
+		hdr_len.push(found);
+	}
+	for (xi, x) in vs.iter().enumerate() {
+		if hdr_len[xi] == 0 {
+			out.raw(&format!("#STAT select: keys of vector {} eb {} are not those of an all-zero header with nonce {}", x.v.name(), x.eb, x.hdr_nonce));
+			continue;
+		}
+		let hdr = vec![0u8; hdr_len[xi]];
+		let k = real_keys(&hdr, Some(x.hdr_nonce));
+		usable += 1;
+		// the vector itself and near misses, real parameters (proof size 42, edge_bits 19/29/31)
+		let mut ctx = x.v.ctx(x.eb, 42);
+		ctx.set_header_nonce(hdr.clone(), Some(x.hdr_nonce), false).unwrap();
+		let mut cases: Vec<Vec<u64>> = vec![x.sol.to_vec()];
+		for _ in 0..6 {
+			let mut t = x.sol.to_vec();
+			let i = rng.below(42) as usize;
+			match rng.below(4) {
+				0 => t[i] ^= 1,
+				1 => t[i] = rng.below(1u64 << x.eb),
+				2 => t.swap(i, (i + 1) % 42),
+				_ => t[i] += 1u64 << x.eb,
+			}
+			if rng.chance(1, 2) {
+				t.sort_unstable();
+			}
+			cases.push(t);
+		}
+		for t in cases.iter() {
+			let r = ctx.verify(&Proof { edge_bits: x.eb, nonces: t.clone() });
+			out.line(
+				&format!("pow verify {} {} 42 42 {} {}", x.v.name(), x.eb, keys_str(&k), nat_list(t)),
+				err_name(&r),
+			);
+		}
+	}
+	out.raw(&format!("#STAT select: repo vectors usable through the public API: {} of {}", usable, vs.len()));
+	// solver-found 42-cycles at edge_bits 11 for every variant (create_pow_context accepts any
+	// edge_bits <= 29 on mainnet / testnet)
+	global::set_local_chain_type(ChainTypes::Mainnet);
+	let mut small: Vec<(Var, u64, Vec<u64>)> = vec![];
+	for v in VARS.iter() {
+		let mut tries = 0;
+		while tries < 6000 {
+			tries += 1;
+			let seed = rng.next();
+			let keys = real_keys(&header(seed), None);
+			let eps: Vec<(u64, u64)> = (0..(1u64 << 11)).map(|n| v.ep(&keys, 11, n)).collect();
+			let mut budget = 300_000u64;
+			if let Some(c) = find_cycles(*v, &eps, 42, &mut budget, 1).into_iter().next() {
+				let mut ctx = v.ctx(11, 42);
+				ctx.set_header_nonce(header(seed), None, false).unwrap();
+				let r = ctx.verify(&Proof { edge_bits: 11, nonces: c.clone() });
+				out.line(
+					&format!("pow verify {} 11 42 42 {} {}", v.name(), keys_str(&keys), nat_list(&c)),
+					err_name(&r),
+				);
+				if r.is_ok() {
+					small.push((*v, seed, c));
+					break;
+				}
+			}
+		}
+		out.raw(&format!("#STAT select: {} 42-cycle at edge_bits 11 after {} graphs: {}", v.name(), tries, small.iter().any(|x| x.0 == *v)));
+	}
+	// create_pow_context: which verifier does (chain type, height, edge_bits) select?
+	// observed = the set of vectors (by variant name) the returned context accepts
+	let year: u64 = 524_160;
+	let hf = year / 2;
+	let mut heights: Vec<u64> = vec![0, 1, hf - 1, hf, 2 * hf - 1, 2 * hf, 3 * hf - 1, 3 * hf, 4 * hf - 1, 4 * hf, 5 * hf, 10 * hf];
+	for t in [185_040u64, 298_080, 552_960, 642_240].iter() {
+		heights.push(*t - 1);
+		heights.push(*t);
+	}
+	for _ in 0..12 {
+		heights.push(rng.below(6 * hf));
+	}
+	for (ct, cname) in [
+		(ChainTypes::Mainnet, "mainnet"),
+		(ChainTypes::Testnet, "testnet"),
+		(ChainTypes::UserTesting, "usertesting"),
+	]
+	.iter()
+	{
+		global::set_local_chain_type(*ct);
+		for h in heights.iter() {
+			for eb in [11u8, 19, 29, 31].iter() {
+				let mut avail: Vec<&str> = vec![];
+				for (xi, x) in vs.iter().enumerate() {
+					if x.eb == *eb && hdr_len[xi] > 0 && !avail.contains(&x.v.name()) {
+						avail.push(x.v.name());
+					}
+				}
+				if *eb == 11 {
+					for x in small.iter() {
+						avail.push(x.0.name());
+					}
+				}
+				let res = match global::create_pow_context::<u64>(*h, *eb, 42, 1) {
+					Err(_) => "err".to_string(),
+					Ok(mut ctx) => {
+						let mut acc: Vec<&str> = vec![];
+						for (xi, x) in vs.iter().enumerate().filter(|(xi, x)| x.eb == *eb && hdr_len[*xi] > 0) {
+							ctx.set_header_nonce(vec![0u8; hdr_len[xi]], Some(x.hdr_nonce), false).unwrap();
+							if ctx.verify(&Proof { edge_bits: *eb, nonces: x.sol.to_vec() }).is_ok() {
+								if !acc.contains(&x.v.name()) {
+									acc.push(x.v.name());
+								}
+							}
+						}
+						if *eb == 11 {
+							for x in small.iter() {
+								ctx.set_header_nonce(header(x.1), None, false).unwrap();
+								if ctx.verify(&Proof { edge_bits: 11, nonces: x.2.clone() }).is_ok() {
+									acc.push(x.0.name());
+								}
+							}
+						}
+						format!("[{}]", acc.join(","))
+					}
+				};
+				out.line(&format!("pow select {} {} {} [{}]", cname, h, eb, avail.join(",")), &res);
+			}
+		}
+	}
+}
+
 fn main() {
 	quiet_panics();
 	let args: Vec<String> = std::env::args().collect();
@@ -1186,6 +1373,7 @@ fn main() {
 		"exh" => exh(&mut out, &mut rng, thorough),
 		"solve" => solve(&mut out, &mut rng, thorough),
 		"pack" => pack(&mut out, &mut rng, thorough),
+		"select" => select(&mut out, &mut rng, thorough),
 		_ => panic!("unknown mode"),
 	}
 	out.flush();
